@@ -24,7 +24,7 @@ import time
 HERE = os.path.dirname(os.path.abspath(__file__))
 VERIF = os.path.dirname(HERE)
 sys.path.insert(0, HERE)
-from extract import process_template, ExtractError, GenLine, find_simple_method  # noqa: E402
+from extract import process_template, ExtractError, GenLine, find_simple_method, find_simple_const  # noqa: E402
 from rustlex import LexError  # noqa: E402
 
 OBL_CLASSES = [
@@ -343,9 +343,20 @@ def main():
                 if e:
                     inline_map[nm] = e
                     break
-        if inline_map:
+        extra_consts = []
+        for x in tools:
+            for mm in re.finditer(r"cannot find value `([A-Z][A-Z0-9_]*)` in this scope", x.get("message", "") + x.get("rendered", "")):
+                for fpath in sorted(set(f["file"] for f in gen.functions)):
+                    try:
+                        cc = find_simple_const(open(os.path.join(args.repo, fpath)).read(), mm.group(1))
+                    except Exception:  # noqa: BLE001
+                        cc = None
+                    if cc and not any(e[2] == cc[1] for e in extra_consts):
+                        extra_consts.append((fpath, cc[0], cc[1]))
+                        break
+        if inline_map or extra_consts:
             try:
-                gen, path = build_unit(unit, cfg, args.repo, outdir, {"inline": inline_map})
+                gen, path = build_unit(unit, cfg, args.repo, outdir, {"inline": inline_map, "extra_consts": extra_consts})
                 text = gen.text()
                 vr = run_verus(path, logdir, extra)
                 cmds.append(" ".join(vr["cmd"]))
